@@ -53,6 +53,8 @@ type h2Endpoint struct {
 	Auto       bool    `json:"auto"`        // return credit for every DATA frame at once
 	GrantStep  int     `json:"grant_step"`  // lazy receivers: size of each WINDOW_UPDATE granted by a scheduler event
 	WinChanges []int64 `json:"win_changes"` // later SETTINGS_INITIAL_WINDOW_SIZE values (scheduler events)
+	EarlyGrant int64   `json:"early_grant"` // extra stream + connection credit granted right after this endpoint's first HEADERS on a stream, before any DATA has come back
+	FrameSeq   []int   `json:"frame_seq"`   // SETTINGS_MAX_FRAME_SIZE values announced one after the other before any stream starts
 	Pings      int     `json:"pings"`
 	Priorities int     `json:"priorities"`
 	Streams    []h2Msg `json:"streams"` // client: requests; server: responses (by stream index)
@@ -169,6 +171,12 @@ func genH2Endpoint(t *tape.Tape, mode string, isClient bool, streams int) h2Endp
 	if isClient {
 		e.Priorities = t.Pick(5, 1, 1)
 	}
+	if t.Chance(1, 5) {
+		e.EarlyGrant = []int64{70000, 200000, 1000}[t.Intn(3)]
+	}
+	if t.Chance(1, 5) {
+		e.FrameSeq = [][]int{{32768, 16384}, {65536, 20000}, {1 << 20, 16384}, {32768}}[t.Intn(4)]
+	}
 	for i := 0; i < streams; i++ {
 		e.Streams = append(e.Streams, genH2Msg(t, mode, isClient))
 	}
@@ -262,6 +270,8 @@ type h2Peer struct {
 	annInitWin     int64 // what we announced (effective for the ledger)
 	pendingInit    []int64
 	lastInitWin    int64
+	earlyDone      map[uint32]bool
+	recvFC         map[uint32]int64 // flow-controlled octets received per stream
 	annMaxFrame    uint32
 	settingsSeen   [][]http2.Setting
 	acks           int
@@ -342,7 +352,7 @@ func newH2Peer(env *core.Env, name string, cfg *h2Endpoint, conn net.Conn) *h2Pe
 		sendConnWin: 65535, peerInitWin: 65535, peerMaxFrame: 16384, peerTable: -1,
 		sendWin: map[uint32]int64{}, sentFC: map[uint32]int64{}, wuRecv: map[uint32]int64{}, sentHist: map[uint32][]h2Item{},
 		recvHist: map[uint32][]h2Item{}, recvConnWin: 65535, recvWin: map[uint32]int64{}, annInitWin: 65535, annMaxFrame: 16384,
-		gotReqHeaders: map[uint32]bool{}, unreturned: map[uint32]int64{}}
+		gotReqHeaders: map[uint32]bool{}, unreturned: map[uint32]int64{}, earlyDone: map[uint32]bool{}, recvFC: map[uint32]int64{}}
 	p.cond = sync.NewCond(&p.mu)
 	p.enc = hpack.NewEncoder(&p.encBuf)
 	p.enc.SetMaxDynamicTableSizeLimit(1 << 20) // follow whatever table size the peer announces, also above the 4096 default
@@ -612,6 +622,15 @@ func (p *h2Peer) sendOne(id uint32, a *h2Action) {
 	switch a.kind {
 	case "H":
 		p.sendHeaders(id, a.fields, a.end, a.split, a.prio)
+		p.mu.Lock()
+		first := !p.earlyDone[id]
+		p.earlyDone[id] = true
+		p.mu.Unlock()
+		if first && p.cfg.EarlyGrant > 0 && !a.end {
+			// a receiver that opens its windows for a stream before anything has arrived on it
+			p.grant(id, p.cfg.EarlyGrant, p.cfg.EarlyGrant, true)
+			p.env.Probe("early_window_grant")
+		}
 	case "D":
 		pad := a.pad
 		p.mu.Lock()
@@ -738,6 +757,7 @@ func (p *h2Peer) readLoop() {
 			p.recvConnWin -= n
 			p.streamRecvWin(f.StreamID)
 			p.recvWin[f.StreamID] -= n
+			p.recvFC[f.StreamID] += n
 			cw, sw := p.recvConnWin, p.recvWin[f.StreamID]
 			p.recvHist[f.StreamID] = appendItem(p.recvHist[f.StreamID], h2Item{kind: "D", data: append([]byte{}, f.Data()...), end: f.StreamEnded()})
 			p.unreturned[f.StreamID] += n
@@ -1013,8 +1033,22 @@ func runH2(env *core.Env, ci any) {
 			pendingActs["client"][id] = client.buildActions(id, &c.Client.Streams[i], "req")
 			pendingActs["server"][id] = server.buildActions(id, &c.Server.Streams[i], "resp")
 		}
-		addSend(client, server)
-		addSend(server, client)
+		env.Sched.AddEvent("start-traffic", func() {
+			// changes of SETTINGS_MAX_FRAME_SIZE before any stream exists: nothing can be queued in the relay, so after a
+			// drained quiescent point the last announced value is exactly what binds the relay
+			for _, p := range []*h2Peer{client, server} {
+				for _, v := range p.cfg.FrameSeq {
+					p.announce([]http2.Setting{{ID: http2.SettingMaxFrameSize, Val: uint32(v)}})
+					env.Sched.Drain(50000)
+					p.mu.Lock()
+					p.annMaxFrame = uint32(v)
+					p.mu.Unlock()
+					env.Probe("max_frame_size_changed_before_traffic")
+				}
+			}
+			addSend(client, server)
+			addSend(server, client)
+		})
 		close(sendersReady)
 		for _, p := range []*h2Peer{client, server} {
 			if p == nil {
@@ -1053,6 +1087,54 @@ func runH2(env *core.Env, ci any) {
 	out := env.Sched.Run(allSent)
 	_ = quiet
 	stopEvents = true
+	// "whenever the receiver's windows permit": at a drained quiescent point, before any window is opened wide, data
+	// of a stream that the relay has accepted and that fits both the stream's and the connection's window as granted
+	// by the receiver must have been delivered
+	if client != nil && server != nil && c.Mode == "streams" {
+		env.Sched.Drain(100000)
+		for _, pr := range [][2]*h2Peer{{client, server}, {server, client}} {
+			snd, rcv := pr[0], pr[1]
+			rcv.applyPendingDecreases()
+			snd.mu.Lock()
+			rcv.mu.Lock()
+			dead := snd.closed || rcv.closed || len(snd.violations) > 0 || len(rcv.violations) > 0
+			for _, id := range streamIDs {
+				// payload octets (the relay does not forward padding)
+				var sentData, gotData int64
+				for _, it := range snd.sentHist[id] {
+					if it.kind == "D" {
+						sentData += int64(len(it.data))
+					}
+				}
+				for _, it := range rcv.recvHist[id] {
+					if it.kind == "D" {
+						gotData += int64(len(it.data))
+					}
+				}
+				pending := sentData - gotData
+				if dead || pending <= 0 {
+					continue
+				}
+				reset := false
+				for _, h := range [][]h2Item{snd.sentHist[id], rcv.sentHist[id], snd.recvHist[id], rcv.recvHist[id]} {
+					for _, it := range h {
+						if it.kind == "R" {
+							reset = true
+						}
+					}
+				}
+				sw, ok := rcv.recvWin[id]
+				if !ok {
+					sw = rcv.annInitWin
+				}
+				if !reset && sw >= pending && rcv.recvConnWin >= pending {
+					env.Fail("h2-stranded", "despite-open-windows", "%s -> %s stream %d: %d DATA octets accepted by the relay have not been delivered although the receiver's stream window (%d) and connection window (%d) both permit them and nothing is in flight", snd.name, rcv.name, id, pending, sw, rcv.recvConnWin)
+				}
+			}
+			rcv.mu.Unlock()
+			snd.mu.Unlock()
+		}
+	}
 	// Phase 2 (liveness): receivers open their windows wide; everything queued must now arrive
 	if client != nil && server != nil {
 		// first the connection windows, and only when that has settled the stream windows - through a SETTINGS
@@ -1140,6 +1222,13 @@ func judgeH2(env *core.Env, c *h2Case, client, server *h2Peer, ids []uint32) {
 			}
 		}
 		for _, v := range p.violations {
+			if c.Mode == "streams" && v.Rule == "h2-frame-too-large" {
+				// for C10: a conforming receiver answers a frame above its SETTINGS_MAX_FRAME_SIZE with FRAME_SIZE_ERROR,
+				// so whatever that frame carried (a header list, data) is not delivered to it
+				v.Rule, v.Feature = "h2-frame-undeliverable", v.Feature+"-exceeds-receiver-max-frame-size"
+				env.Violations = append(env.Violations, v)
+				continue
+			}
 			if c.Mode == "flow" == (strings.Contains(v.Rule, "window") || strings.Contains(v.Rule, "frame-too-large")) || v.Rule == "h2-header-block-undecodable" && c.Mode == "streams" {
 				env.Violations = append(env.Violations, v)
 			}
